@@ -20,6 +20,11 @@ CLAIMED = {
             "World R, hash-binding focus: every attempt starts from a Merkle-valid batch; the adversary sets the public input to the hash of its own forged packing (v+k*r representatives with NBits forged to exactly those bits, swapped/little-endian/wide packings, reordered fields, earlier batch's hash, neighbours) or keeps the original hash for a different but Merkle-consistent batch; all must be rejected while hash+k*r (same field element) must be accepted; on every accepting evaluation the public wire must equal the contract's own Keccak of the canonical packing. One- and multi-block message sizes for both modes (deletion batch 18-20 crosses the 136-byte rate).",
             "Trusted as C01; the contract's packing is written from the property text.",
             "6.C03"),
+    "C08": ("exploration",
+            SIM + "seeded sequencer histories through the real tree and real input-hash helpers, steered (grinding) into roots with leading zero bytes; compared with the contract model's packing and evaluated on the real compiled circuit",
+            "World R, honest sequencer: histories of 3..8 batches per run are built with the real PoseidonTree and hashed by the real ComputeInputHashInsertion/Deletion; a grind operation searches commitments (~48 Poseidon evaluations) until pre- and/or post-roots have a leading zero byte, the state the defect needs; every batch's hash is compared with the contract model's Keccak over the canonical fixed-width packing and the parameters are solved on the real R1CS. Found the unpadded-root defect on the pinned tree (fixed, see KNOWN_FINDINGS). The gen-test-params consequence is exercised at process level under C19.",
+            "Trusted: x/crypto Keccak, packing from the property text; reach probes (pre/post/both roots short) are reported in evidence.",
+            "6.C08"),
     "C18": ("exploration",
             "deterministic simulation: seeded update histories of the real off-chain tree in lock-step with a reference leaf-array model; tape shrinking + fresh-process replay",
             "Seeded histories (1..200 updates, depths 1..32, overwrites, zero writes, extreme and neighbouring indices, aliasing probes on earlier returned paths) drive the real PoseidonTree in lock-step with an independent sparse leaf-array model; root, returned path (old value/old root, new value/new root), sibling equality and read-back of untouched leaves are compared after every step. Exploration is the right level: the property quantifies over histories, and a model-based seeded search with shrinking covers far more histories than the suite's zero.",
